@@ -94,6 +94,7 @@ type gField struct {
 	always  bool // field present in every document (no presence bit)
 	allTerm bool // every term present (no has bit)
 	fixFreq bool // frequency is the constant 1 (no symbolic number)
+	fixLocs bool // every hit has exactly maxLocs locations
 }
 
 type gCfg struct {
@@ -198,7 +199,11 @@ func vGenBatch(cfg gCfg) ([]index.Document, *sSpec) {
 					tt := fmt.Sprint(tag, "_", ti)
 					nl := 0
 					if gf.tv && gf.maxLocs > 0 {
-						nl = vChoice(cfg.prefix+"nl"+tt, gf.maxLocs+1)
+						if gf.fixLocs {
+							nl = gf.maxLocs
+						} else {
+							nl = vChoice(cfg.prefix+"nl"+tt, gf.maxLocs+1)
+						}
 					}
 					var freq uint64
 					if nl > 0 {
